@@ -134,12 +134,62 @@ theorem inv_step (c : Nat) (s s' : St) (o : Op) (h : Inv c s) (hp : opOk8 c s o)
 theorem inv_run (c : Nat) (ops : List Op) : ∀ (s s' : St), Inv c s → allQ (opOk8 c) s ops → runOk s ops = some s' → Inv c s' :=
   run_invariant (Inv c) (opOk8 c) (inv_step c) ops
 
-/-- the states of all runs in which no single application write exceeds `c` bytes -/
-def Reachable8 (c : Nat) (s : St) : Prop := ∃ cw mf ops, 0 < mf ∧ allQ (opOk8 c) (init cw mf) ops ∧ runOk (init cw mf) ops = some s
+/-- the recovery from a priority tree that schedules a stream it does not know (`XOp.rebuild`, see `HC.Proto.H2Send`)
+    keeps every invariant: the fresh tree holds every buffered stream *unblocked* (extracted loop body), so a waiting sender
+    still has a buffer the send task will come back to -/
+theorem inv_rebuild (c : Nat) (s s' : St) (i : Nat) (h : Inv c s) (hs : rebuild s i = some s') : Inv c s' := by
+  have hb := C09.inv_rebuild s s' i h.base hs
+  obtain ⟨ht, hc, _, _, he⟩ := rebuild_spec s s' i hs
+  subst he
+  obtain ⟨_, h2, h3, h4, h5, h6⟩ := h
+  refine ⟨hb, ?_, ?_, ?_, ?_, ?_⟩
+  · intro j; have := h2 j; simpa [rebuildStr] using this
+  · intro j
+    obtain ⟨w1, w2⟩ := h3 j
+    refine ⟨fun hp he => ?_, fun hp he => ?_⟩
+    · have := w1 (by simpa [rebuildStr] using hp) (by simpa [rebuildStr] using he)
+      simp [rebuildStr, Atomic.h2RebuildBlocks, this.1, this.2.1]
+    · have := w2 (by simpa [rebuildStr] using hp) (by simpa [rebuildStr] using he)
+      simp [rebuildStr, Atomic.h2RebuildBlocks, this.1]
+  · intro hcl; simp [hc] at hcl
+  · intro j; have := h5 j; simpa [rebuildStr] using this
+  · intro j; have := h6 j; simpa [rebuildStr] using this
+
+def xopOk8 (c : Nat) (s : St) : XOp → Prop
+  | .op o => opOk8 c s o
+  | .rebuild _ => True
+
+theorem inv_xstep (c : Nat) (s s' : St) (o : XOp) (h : Inv c s) (hp : xopOk8 c s o) (hs : xstep s o = some s') : Inv c s' := by
+  cases o with
+  | op o => exact inv_step c s s' o h hp hs
+  | rebuild i => exact inv_rebuild c s s' i h hs
+
+/-- the states of all runs in which no single application write exceeds `c` bytes - runs in which the priority library
+    may at any time hand the send task a stream the tree does not know -/
+def Reachable8 (c : Nat) (s : St) : Prop := ∃ cw mf ops, 0 < mf ∧ xallQ (xopOk8 c) (init cw mf) ops ∧ xrunOk (init cw mf) ops = some s
 
 theorem reachable8_inv (c : Nat) (s : St) (h : Reachable8 c s) : Inv c s := by
   obtain ⟨cw, mf, ops, hmf, hok, hr⟩ := h
-  exact inv_run c ops _ s (inv_init c cw mf hmf) hok hr
+  exact xrun_invariant (Inv c) (xopOk8 c) (inv_xstep c) ops _ s (inv_init c cw mf hmf) hok hr
+
+/-- in particular the states of the runs of the send path proper -/
+theorem reachable8_of_run (c : Nat) (cw : Int) (mf : Nat) (ops : List Op) (s : St) (hmf : 0 < mf)
+    (hok : allQ (opOk8 c) (init cw mf) ops) (hr : runOk (init cw mf) ops = some s) : Reachable8 c s :=
+  ⟨cw, mf, ops.map .op, hmf, xallQ_lift (opOk8 c) (xopOk8 c) (fun _ _ h => h) ops _ hok, by rw [xrunOk_lift]; exact hr⟩
+
+/-- **released after the recovery**: right after the tree was rebuilt, a stream with a waiting sender, buffered data and
+    credit is a member of the tree and not blocked - the send task's next `pick` of it is enabled, it is not left behind -/
+theorem rebuild_keeps_waiting_streams_schedulable (s s' : St) (i j : Nat) (hs : rebuild s i = some s')
+    (hb : (s.str j).hasBuf = true) :
+    (s'.str j).inTree = true ∧ (s'.str j).blocked = false ∧ (s'.str j).pusher = (s.str j).pusher ∧ (s'.str j).buf = (s.str j).buf ∧
+    (step s' (.pick j)).isSome = true := by
+  obtain ⟨ht, hc, _, _, he⟩ := rebuild_spec s s' i hs
+  subst he
+  have h1 : (rebuildStr (s.str j)).inTree = true := by simp [rebuildStr, hb]
+  have h2 : (rebuildStr (s.str j)).blocked = false := by simp [rebuildStr, Atomic.h2RebuildBlocks]
+  refine ⟨h1, h2, by simp [rebuildStr], by simp [rebuildStr], ?_⟩
+  simp only [step, ht, hc, h1, h2]
+  (repeat' split) <;> simp_all
 
 /-- **bounded**: however many writes the application makes and however large the response, what the server holds for
     a stream is below `HIGH + 2·c` (`c` = the largest single write) — in every reachable state -/
